@@ -1997,7 +1997,8 @@ class PGPKey(Armorable, ParentRef, PGPObject):
         if expires is not None:
             # expires should be a timedelta, so if it's a datetime, turn it into a timedelta
             if isinstance(expires, datetime):
-                expires = expires - self.created
+                # RFC 4880 5.2.3.10: seconds after the *signature* creation time (as written: whole seconds)
+                expires = expires - sig.created.replace(microsecond=0)
 
             sig._signature.subpackets.addnew('SignatureExpirationTime', hashed=True, expires=expires)
 
